@@ -175,6 +175,15 @@ func (e *Engine) callFn(st *State, fr *Frame, fn *ssa.Function, bind []Value, ar
 		k(st, t)
 		return
 	}
+	if fc != nil && fr.V != nil && fr.V.FC != nil && len(fn.Blocks) > 0 {
+		// the function under verification may ask for specific callees to be inlined
+		for _, nm := range strings.Split(fr.V.FC.B.Opts["inline"], ",") {
+			if strings.TrimSpace(nm) == fc.Key {
+				e.inline(st, fr, fn, bind, args, pos, k)
+				return
+			}
+		}
+	}
 	if fc != nil && !fc.B.Inline {
 		if fc.B.Pure {
 			k(st, pack(e.applyContract(st, fr, fc, args, pos)))
